@@ -1,0 +1,9 @@
+//go:build verif
+
+package LunarUtil
+
+// VerifYiJi returns a copy of the (unexported) suitable/avoid vocabulary.
+func VerifYiJi() []string { return append([]string(nil), yiJi...) }
+
+// VerifShenSha returns a copy of the (unexported) auspicious/inauspicious spirit vocabulary.
+func VerifShenSha() []string { return append([]string(nil), shenSha...) }
